@@ -41,6 +41,10 @@ pub struct ServerCase {
     /// application threads (or all of the burst) are held at the same time
     #[serde(default)]
     pub hold: bool,
+    /// the first connection of every burst sends a request with a streamed body (2000 bytes) and
+    /// `Connection: close` instead of its plain requests; its handler leaves the body alone
+    #[serde(default)]
+    pub body_close: bool,
     pub tape: Vec<u8>,
 }
 
@@ -60,7 +64,8 @@ pub fn server_strategy(max_burst: usize, for_c20: bool) -> BoxedStrategy<ServerC
             let trickle = if for_c20 && big && idle_ms > 0 && tape.len() % 2 == 0 { 4 + tape.len() % 3 } else { 0 };
             // (C08/C07) every other case: the handlers hold their requests until all of them have one
             let hold = !for_c20 && tape.len() % 2 == 1;
-            ServerCase { bursts, reqs_per_conn, handlers, apis, stalled: if idle_ms > 0 { 0 } else { stalled }, trickle, idle_ms, drop_mode, hold, tape }
+            let body_close = !for_c20 && tape.len() % 3 == 1;
+            ServerCase { bursts, reqs_per_conn, handlers, apis, stalled: if idle_ms > 0 { 0 } else { stalled }, trickle, idle_ms, drop_mode, hold, body_close, tape }
         })
         .boxed()
 }
@@ -209,12 +214,15 @@ pub fn run_server_case(prop: &'static str, case: &ServerCase) -> Verdict {
         for (bi, b) in c.bursts.iter().copied().enumerate() {
             ph.store(10 + bi, Ordering::SeqCst);
             // (all requests of the earlier bursts have been delivered and answered by now)
-            hold_target.store(next_id + c.handlers.min(b * c.reqs_per_conn), Ordering::SeqCst);
+            let burst_total = if c.body_close { (b - 1) * c.reqs_per_conn + 1 } else { b * c.reqs_per_conn };
+            hold_target.store(next_id + c.handlers.min(burst_total), Ordering::SeqCst);
             let gate = Arc::new(Gate { st: rt::sync::Mutex::new(GateSt::default()), cv: rt::sync::Condvar::new() });
             let mut clients = vec![];
-            for _ in 0..b {
-                let ids: Vec<usize> = (0..c.reqs_per_conn).map(|k| next_id + k).collect();
-                next_id += c.reqs_per_conn;
+            for ci in 0..b {
+                let with_body = c.body_close && ci == 0;
+                let per_conn = if with_body { 1 } else { c.reqs_per_conn };
+                let ids: Vec<usize> = (0..per_conn).map(|k| next_id + k).collect();
+                next_id += per_conn;
                 let l = listener.clone();
                 let g = gate.clone();
                 let o3 = o2.clone();
@@ -228,7 +236,12 @@ pub fn run_server_case(prop: &'static str, case: &ServerCase) -> Verdict {
                     };
                     let mut wire = vec![];
                     for id in &ids {
-                        wire.extend_from_slice(format!("GET /r{} HTTP/1.1\r\nHost: h\r\n\r\n", id).as_bytes());
+                        if with_body {
+                            wire.extend_from_slice(format!("POST /r{} HTTP/1.1\r\nHost: h\r\nConnection: close\r\nContent-Length: 2000\r\n\r\n", id).as_bytes());
+                            wire.extend_from_slice(&[b'b'; 2000]);
+                        } else {
+                            wire.extend_from_slice(format!("GET /r{} HTTP/1.1\r\nHost: h\r\n\r\n", id).as_bytes());
+                        }
                     }
                     cl.send(&wire);
                     let want = ids.len();
@@ -452,6 +465,7 @@ pub fn run_server_case(prop: &'static str, case: &ServerCase) -> Verdict {
         .class_if(o.idle_checks > 0, "idle-phase-checked")
         .class_if(case.stalled > 0, "stalled-connections")
         .class_if(case.hold, "handlers-hold-their-requests")
+        .class_if(case.body_close, "streamed-body-on-a-closing-connection")
         .class_if(case.trickle > 0, "light-traffic-after-burst")
         .class_if(case.apis.iter().any(|a| *a != 0), "mixed-receive-apis")
         .class_if(o.lib_threads_spawned > 5, "extra-workers-spawned")
